@@ -61,7 +61,9 @@ def trees():
         "c.txt": "SPDX-FileContributor: Lee =#*)\nSPDX-License-Identifier: MIT\nSPDX-FileCopyrightText: 2021 Lee '/}\nSPDX-FileCopyrightText: 2021 Lee2 }'/\n",
         "LICENSES/MIT.txt": "mit\n", "LICENSES/0BSD.txt": "0bsd\n"}
     t["licenses-dir"] = {"a.py": H.replace("MIT", "MIT AND LicenseRef-own"), "LICENSES/MIT.txt": "mit\n", "LICENSES/LicenseRef-own.txt": "own text\n",
-                         "LICENSES/sub/Zlib.txt": "zlib\n", "LICENSES/GPL-2.0.txt": "deprecated\n", "LICENSES/MIT.txt.license": "SPDX-License-Identifier: CC0-1.0\n"}
+                         "LICENSES/sub/Zlib.txt": "zlib\n", "LICENSES/GPL-2.0.txt": "deprecated\n", "LICENSES/MIT.txt.license": "SPDX-License-Identifier: CC0-1.0\n",
+                         # a text whose whole name equals the identifier of its neighbour (which one is listed first must not matter)
+                         "LICENSES/LicenseRef-a.b": "text ab, no extension\n", "LICENSES/LicenseRef-a.b.txt": "text ab\n"}
     t["case-variants"] = {"a.py": H, "b/c.py": H.replace("MIT", "mit"), "b/d.py": H.replace("MIT", "MIT OR 0bsd"), "e.py": H.replace("MIT", "0BSD OR MIT"),
                           "LICENSES/MIT.txt": "mit\n", "LICENSES/0BSD.txt": "0bsd\n"}
     t["git"] = {"a.py": H, "ignored.log": "x\n", "d/b.py": H, "d/c.log": "x\n", ".gitignore": "*.log\nbuild/\ndist/\ncache/\n", "LICENSES/MIT.txt": "mit\n",
